@@ -42,7 +42,25 @@ def units(rng, big=False):
                     ssl.append(bytes(R.SslRecord(message=cls.parse_exact_size(d)).compose()))
                 except Exception:  # pylint: disable=broad-except
                     pass
-    res.append(dict(unit='SslRecord', cls=R.SslRecord, frames=_recompose(R.SslRecord, list(dict.fromkeys(ssl))), c04=True))
+    ssl = _recompose(R.SslRecord, list(dict.fromkeys(ssl)))
+    # the three-byte-header form (14-bit length that covers the padding) of the same records, and records at the
+    # 14/15-bit limits of the two header forms
+    padded = []
+    for f in ssl[:12]:
+        body = f[2:]
+        for pad in (0, 1, 7):
+            ln = len(body) + pad
+            if ln < 16384:
+                padded.append(bytes([ln >> 8, ln & 0xff, pad]) + body + bytes(pad))
+    try:
+        from cryptoparser.tls.ciphersuite import SslCipherKind
+        for n in (16383 - 11, 16384 - 11, 20000) + ((32767 - 14,) if big else ()):
+            ssl.append(bytes(R.SslRecord(message=S.SslHandshakeServerHello(
+                certificate=bytes(i * 7 & 0xff for i in range(n)), cipher_kinds=list(SslCipherKind)[:1], connection_id=b'')).compose()))
+    except Exception:  # pylint: disable=broad-except
+        pass
+    # `must`: frames whose conformance does not rest on the library accepting them (TlsWire.EncSsl2Padded, checked in C06)
+    res.append(dict(unit='SslRecord', cls=R.SslRecord, frames=list(dict.fromkeys(ssl + padded)), c04=True, must=set(padded)))
     # handshake messages of every class with corpus entries, parsed through the variant and through the class
     hs = []
     for cls, datas in lib.items():
